@@ -2,7 +2,7 @@
 //! `build()`, `WorldGenerator::generate`) on a WIT package given as text, with an option string,
 //! and return every generated file.
 //!
-//! Request:  `<opts> <hex wit text> <world name | ->`
+//! Request:  `<opts> <hex wit text | @hex path of a WIT file or directory> <world name | ->`
 //!   rust opts (comma separated, `-` = defaults + generate_all):
 //!     own=owning|borrowing|borrowing-dup   std   merge   stubs   raw   map=<hex path>   async
 //!   cpp opts (comma separated, `-` = defaults):
@@ -53,10 +53,13 @@ fn cpp_generator(opts: &str) -> Option<Box<dyn WorldGenerator>> {
     Some(o.build(None))
 }
 
-fn run(mut g: Box<dyn WorldGenerator>, wit: &str, world_name: Option<&str>) -> String {
+fn run(mut g: Box<dyn WorldGenerator>, wit: &str, path: Option<&str>, world_name: Option<&str>) -> String {
     let r = catch_unwind(AssertUnwindSafe(|| -> anyhow::Result<Files> {
         let mut resolve = Resolve::default();
-        let pkg = resolve.push_str("probe.wit", wit)?;
+        let pkg = match path {
+            Some(p) => resolve.push_path(p)?.0,
+            None => resolve.push_str("probe.wit", wit)?,
+        };
         let world = resolve.select_world(&[pkg], world_name)?;
         let mut files = Files::default();
         g.generate(&mut resolve, world, &mut files)?;
@@ -83,10 +86,14 @@ fn handle(line: &str, mk: fn(&str) -> Option<Box<dyn WorldGenerator>>) -> String
     if toks.len() != 3 {
         return "bad-request expected: <opts> <hex wit> <world|->".into();
     }
-    let Some(wit) = unhex(toks[1]) else { return "bad-request wit not hex".into() };
     let world_name = if toks[2] == "-" { None } else { Some(toks[2]) };
     let Some(g) = mk(toks[0]) else { return format!("bad-request unknown option in {}", toks[0]) };
-    run(g, &wit, world_name)
+    if let Some(p) = toks[1].strip_prefix('@') {
+        let Some(p) = unhex(p) else { return "bad-request path not hex".into() };
+        return run(g, "", Some(&p), world_name);
+    }
+    let Some(wit) = unhex(toks[1]) else { return "bad-request wit not hex".into() };
+    run(g, &wit, None, world_name)
 }
 
 pub fn handle_rust(line: &str) -> String {
